@@ -2,6 +2,7 @@
 From Coq Require Import NArith List Arith Sorted.
 Import ListNotations.
 From AV Require Import model.Syntax model.Eval spec.Arith proofs.EvalExact model.Grammar spec.Climb proofs.ClimbProofs proofs.ParseBounded proofs.ParseGeneral proofs.ParseChains proofs.ExprEval.
+From AV Require model.Run proofs.LexExpr proofs.QueryExpr.
 Local Close Scope N_scope.
 
 (* The precedence discipline of `operation()` -- a stack of open operations, closed and popped while the operation below binds
@@ -48,20 +49,22 @@ Theorem C06_operation_refines_climb : forall glue body valuef (qs : list nat) (l
   = Some (Some skip_end, mkst b_end (F ++ ritems glue body (climb (Leaf 0, mkin 0 qs)))).
 Proof. exact op_loop_climb. Qed.
 
-(* Instantiated for every expression over numbers, + - * / ^ ** and parentheses -- any number of operators, any depth of
-   nesting, any (or no) blanks between any two tokens and at either end of the query: the parser returns, for every token list
-   of that shape, the tree in which each parenthesised group stands on its own between its parentheses ([trees_operand]) ... *)
-Theorem C06_parse_expression : forall (w0 : blanks) (e : expr) (w1 : blanks),
+(* Instantiated for every expression over numbers, percentages, + - * / ^ **, casts `to <unit word>` and parentheses -- any
+   number of operators, any depth of nesting, any (or no) blanks between any two tokens and at either end of the query
+   ([wf_expr]: only a unit word must be set off by a blank from a following * / ^ or `to`, which would otherwise be read into
+   the unit): the parser returns, for every token list of that shape, the tree in which each parenthesised group stands on its
+   own between its parentheses ([trees_operand]) ... *)
+Theorem C06_parse_expression : forall (w0 : blanks) (e : expr) (w1 : blanks), wf_expr e ->
   parse_root (wst w0 ++ toks_expr e ++ wst w1) = Some (trees_expr w0 e ++ wsT w1).
 Proof. exact parse_expression. Qed.
 
 (* ... and, inside each group, is the documented grammar's tree: split at the operators of the lowest priority, left to right,
-   recursively over the levels `+ -` < `* /` < `^`, the blanks and operator nodes staying where they were written. *)
+   recursively over the levels `to` < `+ -` < `* /` < `^`, the blanks and operator nodes staying where they were written. *)
 Theorem C06_group_is_canon : forall (w : blanks) (x : operand) (r : tail),
   trees_expr w (Chain x r) =
     ritems (fun n => match n with O => wsT w | S m => tglue r m end)
            (fun n => match n with O => trees_operand x | S m => tbody r m end)
-           (canon levels3 (Leaf 0, mkin 0 (prios r))).
+           (canon levels4 (Leaf 0, mkin 0 (prios r))).
 Proof. exact group_is_canon. Qed.
 
 (* End to end, parser and evaluator together: for EVERY such expression whose number literals are readable -- any number of
@@ -75,6 +78,17 @@ Theorem C06_expression_value : forall debug facts describe (w0 : blanks) (e : Pa
     agrees r (denote (sem_expr e)).
 Proof. exact expression_value. Qed.
 
+(* Blanks do not matter, with no bound: two query texts of such expressions that differ only in their blanks -- how many, of
+   which kind, none at all where the lexer lets the token end, also at either end of the query ([skel_expr] forgets them) -- get
+   answers that agree with the same exact value (or are both errors where it is undefined). *)
+Theorem C06_blanks_do_not_matter : forall debug describe facts (w0 w1 w0' w1' : blanks) (e e' : ParseChains.expr),
+  QueryExpr.skel_expr e = QueryExpr.skel_expr e' ->
+  LexExpr.lexable (wst w0 ++ toks_expr e ++ wst w1) -> LexExpr.lexable (wst w0' ++ toks_expr e' ++ wst w1') ->
+  exists r r', Run.query debug describe facts (LexExpr.text_of (wst w0 ++ toks_expr e ++ wst w1)) = ([r], []) /\
+               Run.query debug describe facts (LexExpr.text_of (wst w0' ++ toks_expr e' ++ wst w1')) = ([r'], []) /\
+               agrees r (denote (sem_expr e)) /\ agrees r' (denote (sem_expr e)).
+Proof. exact QueryExpr.blanks_do_not_matter. Qed.
+
 (* The priorities, operator node kinds and the unit-operand flag of the model's `op()` are the ones the translator reads from
    grammar.rs on every run (gen/Tables.v). *)
 Theorem C06_priorities_are_translated : forall k : kind, op_row k = table_row k.
@@ -87,7 +101,13 @@ Example C06_expression_example :
              (TCons [] AStar [42%N] [] (Num [52%N]) TNil)) in
   parse_root (wst [[32%N]] ++ toks_expr e ++ wst []) = Some (trees_expr [[32%N]] e ++ wsT []) /\
   length (toks_expr e) = 11.
-Proof. split; [apply parse_expression|reflexivity]. Qed.
+Proof. split; [apply parse_expression; cbn; tauto|reflexivity]. Qed.
+
+(* `to` binds loosest: "1 to m + 2" is read as 1 to (m + 2), one cast whose right side is the sum *)
+Example C06_cast_example :
+  canon levels4 (Leaf 0, mkin 0 (prios (TTo [[32%N]] [116%N; 111%N] [[32%N]] [109%N] (TCons [[32%N]] APlus [43%N] [[32%N]] (Num [50%N]) TNil))))
+  = Climb.Node (Leaf 0) [((1, 1), Climb.Node (Leaf 1) [((2, 2), Leaf 2)])].
+Proof. reflexivity. Qed.
 
 (* non-vacuity: "1 - 2 * 3 - 4" is read as (1 - (2 * 3)) - 4, one chain of two `-` whose middle operand is the product *)
 Example C06_example :
